@@ -129,7 +129,7 @@ def _write_lib(lib, ln_prior):
     s["M0"] = lib[:, 3] * u.rad
     s["s"] = lib[:, 4] * u.km / u.s
     s["ln_prior"] = ln_prior
-    fd, path = tempfile.mkstemp(suffix=".hdf5", dir=os.path.join(S.ROOT, "out"))
+    fd, path = tempfile.mkstemp(suffix=".hdf5", dir=S.OUTDIR)
     os.close(fd)
     os.unlink(path)
     s.write(path)
@@ -192,7 +192,7 @@ def _api_setup(seed):
     prior = S.default_prior()
     data = S.make_data(6, seed)
     lib = prior.sample(size=12, rng=np.random.default_rng(seed), return_logprobs=True)
-    path = os.path.join(S.ROOT, "out", f"c02_lib_{os.getpid()}.hdf5")
+    path = os.path.join(S.OUTDIR, f"c02_lib_{os.getpid()}.hdf5")
     if os.path.exists(path):
         os.unlink(path)
     lib.write(path)
